@@ -104,24 +104,28 @@ Section AbstractCodec.
     - exact (decoder_passthrough D dec_feed dec_eof max_dec whole_dec d0 chunks o n H).
   Qed.
 
-  (* NO STALE LENGTH ON THE WIRE (HTTP/1), composed with C02's encoder model.  For every response
-     that Encoder::response decides to encode, every request context of a non-HEAD, non-CONNECT /
-     upgrade request, every handler-supplied header list (a Content-Length included) and every
-     handler choice of no_chunking: the head written by the h1 encoder has no content-length line;
-     the body is chunk- or close-framed; an RFC 7230 reader recovers from the wire exactly the
-     stream the Encoder emitted; and (codec_law) that stream decodes to the handler's body.
-     (Premise on chunk sizes: usize.) *)
+  (* NO STALE LENGTH ON THE WIRE (HTTP/1; repaired code, F29), composed with C02's encoder model.
+     For every response that Encoder::response decides to encode, EVERY request context of a
+     non-HEAD request (CONNECT / upgrade included), every handler-announced length
+     (`.no_chunking(len)`: Content-Length header + NO_CHUNKING flag, both part of [h]), every other
+     header list: the head written by the h1 encoder has no content-length line; the body is chunk-
+     or close-framed; an RFC 7230 reader recovers from the wire exactly the stream the Encoder
+     emitted; and (codec_law) that stream decodes to the handler's body.
+     Premises: [others] are the head's remaining fields (no second content-length among them; for a
+     CONNECT / upgrade request no handler-set transfer-encoding); chunk sizes are usize. *)
   Theorem C13_no_stale_length_on_wire : law_enc ->
     forall (enc : coding) (h : head) (size : bsize) (c : coding) (h' : head),
     encoder_response enc h size = (BEncode c, h') ->
-    forall (cd : Encoder.codec) (conn : option Encoder.conn_t) (headers : list (bytes * bytes))
+    forall (cd : Encoder.codec) (conn : option Encoder.conn_t) (others : list (bytes * bytes))
            (body : list bytes) (o : list bool),
-    Encoder.c_head cd = false -> Encoder.c_stream cd = false ->
+    Encoder.c_head cd = false ->
     RespSpec.no_body_status (h_status h') = false ->
-    EncoderProofs.lower_names headers ->
+    EncoderProofs.lower_names others ->
+    has_field "content-length" others = false ->
+    (Encoder.c_stream cd = true -> has_field "transfer-encoding" others = false) ->
     let '(outs, _, fin) := drive_enc (enc_budget body o) (enc_init E (Some e0) body) o in
     Forall (fun b => lenN b < 2 ^ 64) outs ->
-    let r := h1_resp h' conn headers in
+    let r := h1_resp h' conn others in
     let sz := h1_size (encoder_size (BEncode c) size) in
     let fields := Encoder.hd_fields (EncoderProofs.item_head cd r sz) in
     let cd1 := EncoderProofs.item_codec cd r sz in
@@ -135,11 +139,11 @@ Section AbstractCodec.
       RespSpec.RComplete f encoded (lenN (snd (Encoder.codec_encode_chunks cd1 outs) ++ tail)) /\
       whole_dec encoded = Some (concat body).
   Proof.
-    intros Hlaw enc h size c h' Hdec cd conn headers body o Hh Hs Hst Hlow.
+    intros Hlaw enc h size c h' Hdec cd conn others body o Hh Hst Hlow Hcl Hte.
     pose proof (encoder_lossless E enc_write enc_take enc_finish max_enc e0 whole_dec Hlaw body o) as Hl.
     unfold drive_enc. destruct (enc_drive E enc_write enc_take enc_finish max_enc _ _ o) as [[outs sf] fin].
     destruct Hl as [Hfin [Hdecode _]]. intro Hlen. cbv zeta.
-    destruct (encoded_response_on_h1_wire enc h size c h' Hdec cd conn headers outs Hh Hs Hst Hlow Hlen)
+    destruct (encoded_response_on_h1_wire enc h size c h' Hdec cd conn others outs Hh Hst Hlow Hcl Hte Hlen)
       as [Hno [cd3 [tail [f [He [Hf Hr]]]]]].
     split; [exact Hfin|]. split; [exact Hno|].
     exists cd3, tail, f, (concat outs). repeat split; assumption.
@@ -159,13 +163,13 @@ Theorem C13_passthrough : forall (enc : coding) (h : head) (size : bsize),
 Proof. exact response_passthrough. Qed.
 
 (* LABEL: when the body is encoded with coding c then c is the negotiated coding, has a codec,
-   Content-Encoding names it, Vary: accept-encoding is appended, the status is kept, and the body
-   size becomes Stream (no stale length is announced); and none of the pass-through conditions held *)
+   Content-Encoding names it, Vary: accept-encoding is appended, the status is kept, chunking is re-enabled, a
+   handler-supplied Content-Length is removed (F29) and the body size becomes Stream; and none of the pass-through conditions held *)
 Theorem C13_label : forall (enc : coding) (h : head) (size : bsize) (c : coding) (h' : head),
   encoder_response enc h size = (BEncode c, h') ->
   c = enc /\ selectable c = true /\
   h_content_encoding h' = Some (coding_name c) /\ h_vary h' = h_vary h ++ [vary_accept_encoding] /\
-  h_status h' = h_status h /\ h_no_chunking h' = false /\
+  h_status h' = h_status h /\ h_no_chunking h' = false /\ h_content_length h' = None /\
   encoder_size (BEncode c) size = SzStream /\
   h_content_encoding h = None /\ h_status h <> 101 /\ h_status h <> 204 /\ h_status h <> 206 /\
   c <> Identity /\ size <> SzNone /\ size <> SzSized 0.
@@ -214,75 +218,43 @@ Theorem C13_ranked_is_rearrangement : forall (h : list qitem) (q : qitem),
 Proof. intros h q. split; [apply ranked_items_in|apply ranked_items_length]. Qed.
 
 
-(* ---------------------------------------------------------------- where the clause does NOT hold *)
+(* ---------------------------------------------------------------- HTTP/2, and the code before F29 *)
 
-(* KNOWN FINDING stale-length-h1-stream-request (reproduced on the implementation by the harness:
-   `Connection: upgrade` / CONNECT request, handler `.no_chunking(len)`, Compress encodes): in STREAM
-   mode Codec::encode forces no_chunking for a stream-sized response and the handler's
-   content-length is forwarded in front of the encoded body.  Class = STREAM-mode request AND a
-   handler-supplied content-length header. *)
-Theorem C13_refuted_no_stale_length_on_upgrade_request :
-  exists (cd : Encoder.codec) (headers : list (bytes * bytes)),
-    let r := h1_resp {| h_status := 400; h_content_encoding := Some (coding_name Gzip);
-                        h_vary := [vary_accept_encoding]; h_no_chunking := false |} None headers in
-    Known_stale_h1_stream cd r /\
-    RespSpec.field_values "content-length"
-      (Encoder.hd_fields (EncoderProofs.item_head cd r Encoder.BStream)) <> [].
-Proof.
-  exists (Encoder.codec_decode (Encoder.codec_new true) (Encoder.mkReq false Encoder.V11 None true false)),
-         [(Encoder.str "content-length", Encoder.str "6100")].
-  cbv zeta. split; [split; reflexivity|]. vm_compute. discriminate.
-Qed.
-
-(* ... outside the class (STREAM-mode request, no handler content-length / transfer-encoding): no
-   content-length on the wire, close-framed, the reader recovers the encoder's stream *)
-Theorem C13_holds_outside_known_stale_length_h1 :
+(* NO STALE LENGTH ON HTTP/2 (repaired code), composed with C08's prepare_response: for an encoded
+   response no content-length is announced, whatever the handler announced *)
+Theorem C13_no_stale_length_on_h2 :
   forall (enc : coding) (h : head) (size : bsize) (c : coding) (h' : head),
   encoder_response enc h size = (BEncode c, h') ->
-  forall (cd : Encoder.codec) (conn : option Encoder.conn_t) (headers : list (bytes * bytes))
-         (chunks : list bytes),
-  Encoder.c_head cd = false -> Encoder.c_stream cd = true ->
-  RespSpec.no_body_status (h_status h') = false ->
-  EncoderProofs.lower_names headers ->
-  let r := h1_resp h' conn headers in
-  EncoderProofs.user_has "content-length" r = false ->
-  EncoderProofs.user_has "transfer-encoding" r = false ->
-  Forall (fun b => lenN b < 2 ^ 64) chunks ->
-  let fields := Encoder.hd_fields (EncoderProofs.item_head cd r Encoder.BStream) in
-  let cd1 := EncoderProofs.item_codec cd r Encoder.BStream in
-  RespSpec.field_values "content-length" fields = [] /\
-  exists cd3 tail f,
-    Encoder.codec_encode_eof (fst (Encoder.codec_encode_chunks cd1 chunks)) = Some (cd3, tail) /\
-    RespSpec.read_message false (h_status h') fields
-      (snd (Encoder.codec_encode_chunks cd1 chunks) ++ tail) true =
-    RespSpec.RComplete f (concat chunks) (lenN (snd (Encoder.codec_encode_chunks cd1 chunks) ++ tail)).
-Proof. exact encoded_response_on_h1_stream_request. Qed.
-
-(* KNOWN FINDING stale-length-h2 (reproduced on the implementation: the h2 client receives
-   `content-length: 6100`, 91 DATA bytes and a PROTOCOL_ERROR reset): C08's prepare_response copies a
-   handler-supplied content-length through for a Stream-sized body, so the handler's uncompressed
-   length is announced for the compressed body.  Class = HTTP/2 AND handler-supplied content-length. *)
-Theorem C13_refuted_no_stale_length_on_h2 :
-  exists hdrs, Known_stale_h2 hdrs /\ forall now,
-    Prepare.values_of Prepare.h_content_length
-      (fst (Prepare.prepare_response now 200 hdrs (h2_size (encoder_size (BEncode Gzip) (SzSized 6100)))))
-    = [Encoder.str "6100"].
-Proof.
-  exists [(Prepare.h_content_length, Encoder.str "6100")]. split; [vm_compute; discriminate|].
-  intro now. vm_compute. reflexivity.
-Qed.
-
-(* ... outside the class: no content-length is announced on HTTP/2 for an encoded response *)
-Theorem C13_holds_outside_known_stale_length_h2 :
-  forall (now : bytes) (status : N) (hdrs : list Prepare.header) (size : bsize) (c : coding),
-  ~ Known_stale_h2 hdrs ->
+  forall (now : bytes) (others : list Prepare.header),
+  Prepare.values_of Prepare.h_content_length others = [] ->
   Prepare.values_of Prepare.h_content_length
-    (fst (Prepare.prepare_response now status hdrs (h2_size (encoder_size (BEncode c) size)))) = [].
-Proof.
-  intros now status hdrs size c Hk. apply no_length_on_h2_without_user_length.
-  unfold Known_stale_h2 in Hk. destruct (Prepare.values_of Prepare.h_content_length hdrs); [reflexivity|].
-  exfalso. apply Hk. discriminate.
-Qed.
+    (fst (Prepare.prepare_response now (h_status h') (h2_headers h' others)
+            (h2_size (encoder_size (BEncode c) size)))) = [].
+Proof. exact encoded_response_on_h2. Qed.
+
+(* F29, before the repair (commit 933caef): update_head left the handler's Content-Length in the head.
+   A CONNECT / upgrade request (h1 codec in STREAM mode) and HTTP/2 forwarded it in front of the
+   encoded body; both were reproduced on the implementation (content-length: 6100, 91 body bytes).
+   With the repaired update_head the same heads carry no content-length. *)
+Theorem C13_refuted_before_F29_h1_stream_request :
+  let h' := update_head_before_F29 Gzip head_announcing_6100 in
+  let cd := Encoder.codec_decode (Encoder.codec_new true) (Encoder.mkReq false Encoder.V11 None true false) in
+  Encoder.c_stream cd = true /\
+  RespSpec.field_values "content-length"
+    (Encoder.hd_fields (EncoderProofs.item_head cd (h1_resp h' None []) Encoder.BStream)) = [Encoder.str "6100"] /\
+  RespSpec.field_values "content-length"
+    (Encoder.hd_fields (EncoderProofs.item_head cd (h1_resp (update_head Gzip head_announcing_6100) None [])
+                                                Encoder.BStream)) = [].
+Proof. exact before_F29_stale_length_on_upgrade_request. Qed.
+
+Theorem C13_refuted_before_F29_h2 : forall now,
+  Prepare.values_of Prepare.h_content_length
+    (fst (Prepare.prepare_response now 200 (h2_headers (update_head_before_F29 Gzip head_announcing_6100) [])
+            Prepare.SStream)) = [Encoder.str "6100"] /\
+  Prepare.values_of Prepare.h_content_length
+    (fst (Prepare.prepare_response now 200 (h2_headers (update_head Gzip head_announcing_6100) [])
+            Prepare.SStream)) = [].
+Proof. exact before_F29_stale_length_on_h2. Qed.
 
 (* non-vacuity: a scripted codec satisfying nothing in particular still runs the machine; a
    negotiation with q-values; an encoded and a passed-through decision *)
@@ -290,26 +262,27 @@ Example C13_example :
   negotiate [(PSpec Gzip, 500); (PSpec Brotli, 1000); (PAny, 0)] supported_encodings = Some Brotli /\
   negotiate [(PSpec Identity, 0)] supported_encodings = None /\
   negotiate [(PAny, 1000)] supported_encodings = Some Identity /\
-  fst (encoder_response Gzip {| h_status := 200; h_content_encoding := None; h_vary := []; h_no_chunking := true |}
+  fst (encoder_response Gzip {| h_status := 200; h_content_encoding := None; h_vary := []; h_no_chunking := true; h_content_length := None |}
                         (SzSized 10)) = BEncode Gzip /\
-  fst (encoder_response Gzip {| h_status := 206; h_content_encoding := None; h_vary := []; h_no_chunking := true |}
+  fst (encoder_response Gzip {| h_status := 206; h_content_encoding := None; h_vary := []; h_no_chunking := true; h_content_length := None |}
                         (SzSized 10)) = BPass /\
   ENC_MAX_CHUNK_SIZE_ENCODE_IN_PLACE = 1024 /\ DEC_MAX_CHUNK_SIZE_DECODE_IN_PLACE = 2049.
 Proof. vm_compute. repeat split. Qed.
 
 (* non-vacuity of C13_no_stale_length_on_wire: a GET over HTTP/1.1 keep-alive, the handler announced
    `content-length: 6100` and disabled chunking, the response is gzip-encoded: the head announces
-   transfer-encoding: chunked and no content-length *)
+   transfer-encoding: chunked and no content-length; the pass-through head (206) keeps the length *)
 Example C13_wire_example :
-  let h := {| h_status := 200; h_content_encoding := None; h_vary := []; h_no_chunking := true |} in
   let cd := Encoder.codec_decode (Encoder.codec_new true) (Encoder.mkReq false Encoder.V11 None false false) in
-  let h' := snd (encoder_response Gzip h (SzSized 6100)) in
+  let h' := snd (encoder_response Gzip head_announcing_6100 (SzSized 6100)) in
   let fields := Encoder.hd_fields (EncoderProofs.item_head cd
-                  (h1_resp h' None [(Encoder.str "content-length", Encoder.str "6100");
-                                    (Encoder.str "content-encoding", Encoder.str "gzip")])
-                  (h1_size (encoder_size (fst (encoder_response Gzip h (SzSized 6100))) (SzSized 6100)))) in
-  fst (encoder_response Gzip h (SzSized 6100)) = BEncode Gzip /\
+                  (h1_resp h' None [(Encoder.str "content-encoding", Encoder.str "gzip")])
+                  (h1_size (encoder_size (fst (encoder_response Gzip head_announcing_6100 (SzSized 6100))) (SzSized 6100)))) in
+  fst (encoder_response Gzip head_announcing_6100 (SzSized 6100)) = BEncode Gzip /\
   RespSpec.field_values "content-length" fields = [] /\
   RespSpec.field_values "transfer-encoding" fields = [Encoder.str "chunked"] /\
-  RespSpec.field_values "content-encoding" fields = [Encoder.str "gzip"].
+  RespSpec.field_values "content-encoding" fields = [Encoder.str "gzip"] /\
+  h_content_length (snd (encoder_response Gzip
+     {| h_status := 206; h_content_encoding := None; h_vary := []; h_no_chunking := true;
+        h_content_length := Some (Encoder.str "6100") |} (SzSized 6100))) = Some (Encoder.str "6100").
 Proof. vm_compute. repeat split. Qed.
